@@ -60,6 +60,7 @@ pub fn main(args: &Args) -> i32 {
         deliver: 16,
         redeliver: 3,
         immediate: 0,
+        reinvite: true,
         ..Weights::default()
     };
     let spec = Spec {
